@@ -62,15 +62,24 @@ def static_classes(prog):
                 loops.append(n.lineno)
     if loops:
         cls['for_target_rebound_elsewhere_and_read_after_loop'] = loops
-    # (2) nested function declaring nonlocal and assigning it
-    for n in ast.walk(fn):
-        if isinstance(n, ast.FunctionDef) and n is not fn:
+    # (2) a nested function declares a name nonlocal and assigns it, and the enclosing function has no unconditional
+    #     top-level assignment of that name before the nested def (so the closure call may be its first binding):
+    #     DEFINED_VARS_IN of later statements misses it (the liveness side of nonlocal closures was fixed in ccf3d44)
+    top_assigned = set()
+    for st in fn.body:
+        if isinstance(st, ast.FunctionDef):
             nl = set()
-            for s in ast.walk(n):
-                if isinstance(s, ast.Nonlocal):
-                    nl.update(s.names)
-            if nl:
-                cls['nonlocal_write_in_reaching_closure'] = sorted(nl)
+            for x in ast.walk(st):
+                if isinstance(x, ast.Nonlocal):
+                    nl.update(x.names)
+            stored = set(x.id for x in ast.walk(st) if isinstance(x, ast.Name) and isinstance(x.ctx, ast.Store))
+            risky = (nl & stored) - top_assigned
+            if risky:
+                cls['local_first_bound_by_closure_call'] = sorted(risky)
+        elif isinstance(st, (ast.Assign, ast.AugAssign, ast.AnnAssign)):
+            for x in ast.walk(st):
+                if isinstance(x, ast.Name) and isinstance(x.ctx, ast.Store):
+                    top_assigned.add(x.id)
     # (3) parameter of a nested def/lambda equal to a name read in the enclosing function outside it
     for n in ast.walk(fn):
         if isinstance(n, (ast.FunctionDef, ast.Lambda)) and n is not fn:
@@ -94,12 +103,6 @@ def static_classes(prog):
         if isinstance(n, ast.Compare) and len(n.ops) >= 2:
             if any(isinstance(x, (ast.Call, ast.NamedExpr, ast.Await, ast.Yield)) for m in n.comparators[:-1] for x in ast.walk(m)):
                 cls['chained_comparison_effectful_middle_operand'] = True
-    # (7) `x op= <expr reading names>`: variables.visit_AugAssign does not visit the value, so reads in it are not
-    #     wrapped in ag__.ld and an Undefined placeholder flows on instead of raising
-    for n in ast.walk(fn):
-        if isinstance(n, ast.AugAssign) and isinstance(n.target, ast.Name):
-            if any(isinstance(x, ast.Name) and isinstance(x.ctx, ast.Load) for x in ast.walk(n.value)):
-                cls['augassign_value_reads_not_ld_wrapped'] = True
     # (8) a `finally` block containing a raise, on a try whose body/handlers contain return/break/continue: when the
     #     raise replaces the pending jump and is caught in the same function, the lowered jump flag stays set
     def _own(nodes, kinds):
@@ -137,8 +140,6 @@ def static_classes(prog):
                 cls['call_in_return_annotation_of_nested_def'] = True
             if any(isinstance(x, ast.Lambda) for d in n.decorator_list for x in ast.walk(d)):
                 cls['lambda_in_decorator_of_nested_def'] = True
-        if isinstance(n, ast.Call) and isinstance(n.func, ast.Attribute) and n.func.attr == 'set_loop_options' and not n.args and not n.keywords:
-            cls['set_loop_options_without_arguments'] = True
     body = [s for s in fn.body]
     if len(body) == 1 and isinstance(body[0], ast.Expr) and isinstance(body[0].value, ast.Constant) and isinstance(body[0].value.value, str):
         cls['docstring_only_function_body'] = True
@@ -190,16 +191,14 @@ def classify(prog, mod, args, dec, static, orig_outcome=None):
     """Finding class of a failing case, or None (= new violation)."""
     if 'for_target_rebound_elsewhere_and_read_after_loop' in static:
         return 'for_target_rebound_elsewhere_and_read_after_loop'
-    if 'nonlocal_write_in_reaching_closure' in static:
-        return 'nonlocal_write_in_reaching_closure'
+    if 'local_first_bound_by_closure_call' in static:
+        return 'local_first_bound_by_closure_call'
     if 'nested_fn_param_leaks_into_enclosing_bound' in static:
         return 'nested_fn_param_leaks_into_enclosing_bound'
     if 'del_of_unbound_name_does_not_raise' in static and orig_outcome == ('exc', 'NameError'):
         return 'del_of_unbound_name_does_not_raise'
-    if 'augassign_value_reads_not_ld_wrapped' in static and orig_outcome == ('exc', 'NameError'):
-        return 'augassign_value_reads_not_ld_wrapped'
     for k in ('read_in_class_body', 'namedexpr_in_call_argument', 'call_in_return_annotation_of_nested_def', 'lambda_in_decorator_of_nested_def',
-              'set_loop_options_without_arguments', 'docstring_only_function_body',
+              'docstring_only_function_body',
               'raise_in_finally_over_jump', 'except_handler_binds_name', 'try_else_block_starts_with_if', 'chained_comparison_effectful_middle_operand'):
         if k in static:
             return k
